@@ -862,6 +862,17 @@ func (in *Interp) strEq(a, b Str) *sym.Term {
 		if o.NotNilWord && other.IsConc() && other.S == "<nil>" {
 			return in.Ctx.F
 		}
+		if o.Ptr != nil {
+			if other.Opq != nil && other.Opq.Ptr != nil {
+				return in.Ctx.Bool(o.Ptr == other.Opq.Ptr)
+			}
+			if other.Opq == nil && other.Len() < 3 {
+				return in.Ctx.F
+			}
+			if other.Opq == nil && other.IsConc() && !strings.HasPrefix(other.S, "0x") {
+				return in.Ctx.F
+			}
+		}
 		if o.JSON != nil && other.IsConc() {
 			if r, ok := in.jsonTextEqTerm(o.JSON, other.S); ok {
 				return r
